@@ -58,15 +58,28 @@
    user"): the safe-save lemma of LogOut(userID) (CrashFault4) needs the constraint
    on written records to be indifferent to the user field. Computed for every n of a
    step with script [Set; RegenerateID; Set; LogIn; Delete] in Proofs/CrashAnyEx.v
-   (ca_resolved): exactly those states. Also not proved here: the request after the
-   restart (Start on the empty cache following the chain at an arbitrary heap mark;
-   C10C_restart_* do it at heap mark 0). *)
+   (ca_resolved): exactly those states. A proof needs three more invariants threaded
+   through every operation (the object cached under the session's ID is the
+   handler's; the stored record under it is the handler's content after every
+   operation; no other ID of the session holds a session's record), because
+   LogOut(userID) inside an exclusive LogIn rewrites whatever object it finds under
+   the session's ID.
+
+   (d) C10K_restart_presented - the request after the restart: from the world the stop
+       leaves, a request presenting k0 again that passes Start's checks on the
+       record stored under k0 (probe_ok of C10H) is served a session whose data is
+       the stored data or one of the script's data states. Start follows the whole
+       chain on the empty cache (CrashChain3.probe_chain_step asks nothing of the
+       heap, so it applies to the crashed world at any heap mark).
+
+   LIg = LIx and graves_drawn; kept by every fault-free step, holds in every reachable
+   state (C10K_LIg_step, C10K_LIg_reach). *)
 From Sessions Require Import Model.Base Model.Sess Model.Hist Model.Corr Proofs.SessDefs
   Proofs.HistInv Proofs.HistInv2 Proofs.HistInv3 Proofs.HistLift Proofs.HistLift3 Proofs.HistLift4 Proofs.HistLiftB
   Proofs.LineageB Proofs.LineageK Proofs.LineageK2 Proofs.LineageK3 Proofs.LineageF
   Proofs.CrashAny Proofs.CrashAny2 Proofs.CrashAny3 Proofs.CrashAny4 Proofs.CrashAny5 Proofs.CrashAny6 Proofs.CrashAny7
-  Proofs.CrashAny8 Proofs.CrashAny9 Proofs.CrashAny10 Proofs.CrashAnyEx.
-From Sessions Require Proofs.CrashFault Proofs.CrashFault2 Proofs.CrashFault3 Proofs.CrashChain.
+  Proofs.CrashAny8 Proofs.CrashAny9 Proofs.CrashAny10 Proofs.CrashAny11 Proofs.CrashAnyEx.
+From Sessions Require Proofs.CrashFault Proofs.CrashFault2 Proofs.CrashFault3 Proofs.CrashChain Proofs.CrashRestart.
 
 (* ------------------------------------------------------- the notions *)
 
@@ -283,6 +296,62 @@ Theorem C10K_presented_data_reach :
     (store (w_st (fst (step (reach c hs) (HReq r))))) k0.
 Proof. exact presented_data_reach. Qed.
 
+Theorem C10K_LIg_meaning : forall s, LIg s <-> LIx s /\ graves_drawn s.
+Proof. exact (fun s => iff_refl _). Qed.
+
+Theorem C10K_LIg_step : forall w h, LIg (w_st w) -> ff_hop h -> LIg (w_st (fst (step w h))).
+Proof. exact LIg_step. Qed.
+
+Theorem C10K_LIg_reach : forall c hs, Forall ff_hop hs -> LIg (w_st (reach c hs)).
+Proof. exact LIg_reach. Qed.
+
+(* ------------------------------------------------------- (d) the request after the restart *)
+
+Theorem C10K_probe_ok_meaning :
+  forall c t q r, CrashRestart.probe_ok c t q r <->
+  rec_valid c t q r = true /\
+  ((isref r = true \/ (c_idexpiry c <=? since (r_created r) t)%Z = false) ->
+   (sat_add (c_idexpiry c) (c_grace c) <=? since (r_created r) t)%Z = false).
+Proof. exact (fun c t q r => iff_refl _). Qed.
+
+Theorem C10K_restart_presented :
+  forall w r n k0 rest rn d0 r2,
+  LIx (w_st w) -> graves_drawn (w_st w) -> rq_plan r = [] -> rq_crash r = Some n ->
+  no_deletes (ob_evs (snd (step w (HReq (nocrash r))))) ->
+  presents w r = CKey k0 ->
+  CrashChain.spath (fun _ => True) (store (w_st w)) k0 rest ->
+  lookup (store (w_st w)) (last rest k0) = Some rn ->
+  (forall o ob, In (last rest k0, o) (cache (w_st w)) -> hget (w_st w) o = Some ob -> r_ref (o_rec ob) = None ->
+     CrashFault3.dat (o_rec ob) = CrashFault3.dat rn) ->
+  (forall id0 rc0, ob_start (snd (step w (HReq (nocrash r)))) = Some (id0, rc0) -> r_data rc0 = Some d0) ->
+  let w' := fst (step w (HReq r)) in
+  rq_plan r2 = [] -> rq_crash r2 = None -> presents w' r2 = CKey k0 ->
+  (forall rk, lookup (store (w_st w')) k0 = Some rk ->
+     CrashRestart.probe_ok (conf (w_st w')) (now (w_st w')) (mkReq (CKey k0) (rq_create r2) (rq_addr r2) (rq_ua r2)) rk) ->
+  ob_res (snd (step w' (HReq r2))) = RSess /\
+  exists id rc, ob_start (snd (step w' (HReq r2))) = Some (id, rc) /\ r_ref rc = None /\
+    (CrashFault3.dat rc = CrashFault3.dat rn \/ In (CrashFault3.dat rc) (script_data d0 (rq_script r))).
+Proof. exact restart_presented. Qed.
+
+Theorem C10K_restart_presented_reach :
+  forall c hs r n k0 rest rn d0 r2,
+  Forall ff_hop hs -> rq_plan r = [] -> rq_crash r = Some n ->
+  no_deletes (ob_evs (snd (step (reach c hs) (HReq (nocrash r))))) ->
+  presents (reach c hs) r = CKey k0 ->
+  CrashChain.spath (fun _ => True) (store (w_st (reach c hs))) k0 rest ->
+  lookup (store (w_st (reach c hs))) (last rest k0) = Some rn ->
+  (forall o ob, In (last rest k0, o) (cache (w_st (reach c hs))) -> hget (w_st (reach c hs)) o = Some ob -> r_ref (o_rec ob) = None ->
+     CrashFault3.dat (o_rec ob) = CrashFault3.dat rn) ->
+  (forall id0 rc0, ob_start (snd (step (reach c hs) (HReq (nocrash r)))) = Some (id0, rc0) -> r_data rc0 = Some d0) ->
+  let w' := fst (step (reach c hs) (HReq r)) in
+  rq_plan r2 = [] -> rq_crash r2 = None -> presents w' r2 = CKey k0 ->
+  (forall rk, lookup (store (w_st w')) k0 = Some rk ->
+     CrashRestart.probe_ok (conf (w_st w')) (now (w_st w')) (mkReq (CKey k0) (rq_create r2) (rq_addr r2) (rq_ua r2)) rk) ->
+  ob_res (snd (step w' (HReq r2))) = RSess /\
+  exists id rc, ob_start (snd (step w' (HReq r2))) = Some (id, rc) /\ r_ref rc = None /\
+    (CrashFault3.dat rc = CrashFault3.dat rn \/ In (CrashFault3.dat rc) (script_data d0 (rq_script r))).
+Proof. exact restart_presented_reach. Qed.
+
 (* ------------------------------------------------------- (c) the completed step *)
 
 Theorem C10K_completed_new_id :
@@ -355,6 +424,12 @@ Print Assumptions C10K_graves_drawn_reach.
 Print Assumptions C10K_no_dangling_reach.
 Print Assumptions C10K_presented_resolves_reach.
 Print Assumptions C10K_presented_data_reach.
+Print Assumptions C10K_LIg_meaning.
+Print Assumptions C10K_LIg_step.
+Print Assumptions C10K_LIg_reach.
+Print Assumptions C10K_probe_ok_meaning.
+Print Assumptions C10K_restart_presented.
+Print Assumptions C10K_restart_presented_reach.
 Print Assumptions C10K_completed_new_id.
 (* non-vacuity (Proofs/CrashAnyEx.v): a step with script [Set; RegenerateID; Set; LogIn;
    Delete] presenting a replaced ID, stopped after every number of its 9 calls *)
@@ -366,3 +441,5 @@ Print Assumptions ca_theorems.
 Print Assumptions ca_completed.
 Print Assumptions ca_script_data.
 Print Assumptions ca_data_theorem.
+Print Assumptions ca_restart_answers.
+Print Assumptions ca_restart_theorem.
